@@ -12,6 +12,12 @@ COMMON_ASSUME = [
     "hash functions, sfa container, tempfile, quick_cache, crossbeam-skiplist, interval-heap are modelled by their specifications",
 ]
 
+def entry(title, instruments, rule, technique, level_text, level_note, design_ref, assumptions=None, trusted=None):
+    return {"title": title, "instruments": instruments, "rule": rule, "assumptions": COMMON_ASSUME + (assumptions or []),
+            "trusted_base": trusted or [], "design_ref": design_ref, "technique": technique, "level_text": level_text, "level_note": level_note}
+
+TECH = "Lean 4 theorems about a hand-written executable model + differential correspondence (lsmdrv vs. real crate, step-validated histories) + property oracle on the real tree"
+
 PROPS = {
     "C19": {
         "title": "FIFO compaction drops only the oldest tables and leaves the rest readable",
@@ -25,4 +31,23 @@ PROPS = {
         "level_text": "Theorems c19_* close the quantifier over all limits, TTLs, clock values and table lists for the model of Strategy::choose; the model is tied to the code by replaying every FIFO decision of generated histories through both.",
         "level_note": "proof about a hand-written model; correspondence by differential testing; retained-table readability rests on the C01 machinery",
     },
+    "C13": entry(
+        "A weak delete behaves like a delete for keys written once",
+        [ia("cstream", 3000, 100000), ib("weak", 400, 20000, blob=2, ops=60)],
+        "I-A: generated merged multi-version inputs (weak tombstones in 70% of them), real CompactionStream vs model cstream incl. dropped-callback order; "
+        "I-B: histories with weak-delete rounds on two keys obeying the single-delete discipline, every placement of tombstone vs value across memtables/levels; "
+        "non-trivial = history with >= 1 version-changing compaction and >= 2 flushes (distinct digests)",
+        TECH,
+        "c13_weak_delete_gc_safe / _last_level: for every watermark and every split of a key's version list into (newer outside, compaction input, older outside) that obeys the discipline, the GC stream preserves the discipline and the value read; c13_legacy_stream_violates records F5.",
+        "tree-level lifting (which versions of a key form the compaction input) rests on Admissible, monitored on every observed choice; see C01",
+        "7 C13"),
+    "C17": entry(
+        "Compaction filters act exactly as their verdicts say and spare old snapshots",
+        [ia("cstream", 3000, 100000), ib("filter", 300, 15000, blob=2, ops=60)],
+        "I-A: CompactionStream with a seeded verdict function (Keep/Replace/Remove/RemoveWeak/Destroy by hash of key,value) vs model; "
+        "I-B: trees with a table-driven compaction filter factory, verdict log compared with the oracle's newest value, snapshots held across compactions; non-trivial as C13",
+        TECH,
+        "c17_* theorems: per verdict, what new snapshots read; the filter never influences the result through tombstones; other keys untouched; output stays sorted. Old snapshots: C02.",
+        "verdict functions are deterministic in (key, value); RemoveWeak/Destroy only claimed for write-once keys, as the property states",
+        "7 C17"),
 }
